@@ -102,7 +102,7 @@ def coq_makefile():
         run(["coq_makefile", "-f", "_CoqProject", "-o", "Makefile"], cwd=COQ, check=True)
 
 
-def coq_make(targets, timeout=1500):
+def coq_make(targets, timeout=900):
     """make the given .vo targets (full .vo build). returns (ok, log)"""
     coq_makefile()
     rc, out, err = run(["timeout", str(timeout), "make", "-j%d" % NCPU] + targets, cwd=COQ, timeout=timeout + 30)
